@@ -4,6 +4,7 @@
 # EasyFEA is distributed under the terms of the GNU General Public License v3, see LICENSE.txt and CREDITS.md for more information.
 
 from abc import ABC, abstractmethod
+import copy
 import pickle
 from datetime import datetime
 from typing import Union, Optional, Any
@@ -451,7 +452,9 @@ class _Simu(_IObserver, _params.Updatable, ABC):
         entry = self.__list_results[iter]
         if isinstance(entry, str):
             return self.__Restore_iter_from_local(self.__Read_iter_parts(entry))
-        return entry.copy()
+        # deep copy: a shallow `entry.copy()` hands out the stored arrays themselves, so an in-place
+        # write into a returned array (or into the live field after `Set_Iter`) would corrupt the history
+        return copy.deepcopy(entry)
 
     @abstractmethod
     def Set_Iter(self, iter: int = -1, resetAll=False) -> dict:
